@@ -3,5 +3,5 @@
 n=$1; shift
 d=/verif/seeded/$n; [ -d $d ] || d=/verif/refactorings/$n
 git -C /repo apply $d/patch.diff || { echo "PATCH FAILED"; exit 2; }
-for p in "$@"; do (cd /verif && /venv/bin/python -m dtverif check $p --tier quick | grep -E "^FINDING|ANALYSIS|^CHECK|Traceback|Error" | cut -c1-420); done
+for p in "$@"; do (cd /verif && /venv/bin/python -m dtverif check $p --tier quick | grep -E "^FINDING|^ANALYSIS|^CHECK|Traceback" | cut -c1-420); done
 git -C /repo checkout -- .; git -C /repo clean -fdq src
